@@ -519,6 +519,29 @@ def work_seq(k, tier, seed, res):
                         except Exception as e:
                             bad.append((lab + ":raises:" +
                                         type(e).__name__, repr(e)[:200]))
+                    if kind.startswith(("rh-", "rrg-")) and L >= 2 and \
+                            entry in ("search", "call"):
+                        # the same object switched to read-only afterwards
+                        # (`cache_only` is a plain public attribute): every
+                        # query it has answered is answered again with a tree
+                        # of THAT query - or refused with the KeyError that
+                        # cache_only + overwrite raises by design
+                        opt.cache_only = True
+                        for qn in dict.fromkeys(seq):
+                            q = QS[qn]
+                            lab = f"{entry}:frozen:{qn}"
+                            res.transitions += 1
+                            try:
+                                if entry == "search":
+                                    bad += tree_problems(opt.search(*q), q,
+                                                         lab)
+                                else:
+                                    bad += path_problems(opt(*q), q, lab)
+                            except KeyError:
+                                pass
+                            except Exception as e:
+                                bad.append((lab + ":raises:" +
+                                            type(e).__name__, repr(e)[:200]))
                     res.states += 1
                     if bad:
                         cls = bad[0][0].split(":", 3)[-1]
